@@ -62,7 +62,7 @@ def rule_axisdefault(repo, rid, modules, exempt=()):
                      'result for batch extents 3 or 1 must equal the item-by-item result', floor=1)
     n = 0
     for m in modules:
-        for f in repo.module(m).functions.values():
+        for f in repo.functions_view(m):
             n += 1
             hz = [(node, why) for node, why in hazards(f.node) if (f.fq, src(node)) not in exempt and f.fq not in exempt]
             res.inst({'function': f.fq, 'data-dependent default axes': [src(x)[:50] for x, _ in hz]}, f.fq if hz else None)
@@ -157,7 +157,7 @@ def rule_frontaxis(repo, rid, modules):
                      'modules addresses an axis by a positive literal counted from the front, and none uses the full reversal `.T` / `.t()` - the inputs '
                      'carry any number of leading batch dimensions, so only axes counted from the back are the same axis for every batch shape', floor=20)
     for m in modules:
-        for f in repo.module(m).functions.values():
+        for f in repo.functions_view(m):
             hz = front_axes(f.node)
             res.inst({'function': f.fq, 'front-counted axes': [src(x)[:50] for x, _ in hz]}, f.fq)
             for node, why in hz:
@@ -233,7 +233,7 @@ def rule_batchbranch(repo, rid, modules):
                      'reduction of tensor VALUES over the whole batch (.all() / .any() / allclose / .item() / .sum() ...): the result for one item would depend on '
                      'the other items it is batched with', floor=20)
     for m in modules:
-        for f in repo.module(m).functions.values():
+        for f in repo.functions_view(m):
             hz = batch_branches(f.node)
             res.inst({'function': f.fq, 'whole-batch data-dependent branches': [s_ for _, s_ in hz]}, f.fq)
             for node, s_ in hz:
@@ -314,7 +314,7 @@ def rule_viewarg(repo, rid, modules, exempt=('lview', 'view', 'view_as'), floor=
     res = RuleResult(rid, 'batch transparency over memory layouts: no converter / kernel of these modules applies `.view(shape)` to a tensor it was handed by the caller '
                      '(use reshape): a transposed / permuted / expanded batch is as valid an input as a contiguous one, and view() raises on it', floor=floor)
     for m in modules:
-        for f in repo.module(m).functions.values():
+        for f in repo.functions_view(m):
             if f.node.name in exempt:
                 continue
             hz = view_of_param(f.node)
@@ -391,7 +391,7 @@ def rule_regroup(repo, rid, modules, floor=20):
     res = RuleResult(rid, 'batch transparency across regimes: what was gathered from the batch with a boolean mask (per-regime sub-batches) returns through a store under '
                      'the same mask, never through a row-wise concatenation of the pieces (which orders the rows by regime, not by batch position)', floor=floor)
     for m in modules:
-        for f in repo.module(m).functions.values():
+        for f in repo.functions_view(m):
             hz = regrouped_rows(f.node)
             res.inst({'function': f.fq, 'row-wise concatenations of gathered pieces': [src(c)[:50] for c, _ in hz]}, f.fq)
             for c, names in hz:
@@ -432,7 +432,7 @@ def rule_zerocmp(repo, rid, modules, floor=20):
                      'machine epsilon with a limit formula on the other side (Cxx.LIMIT); an exact-zero test also fires for values that UNDERFLOW to zero on the way '
                      '(the 2-norm of a 1e-24 vector in float32) and leaves those items at the skipped value', floor=floor)
     for m in modules:
-        for f in repo.module(m).functions.values():
+        for f in repo.functions_view(m):
             hz = zero_compares(f.node)
             res.inst({'function': f.fq, 'exact-zero tests': [src(c)[:40] for c in hz]}, f.fq)
             for c in hz:
@@ -479,7 +479,7 @@ def rule_flatcat(repo, rid, modules):
                      'reshaped to their own (rows, columns) first and concatenated along the column axis', floor=1)
     k = 0
     for m in modules:
-        for f in repo.module(m).functions.values():
+        for f in repo.functions_view(m):
             k += 1
             for v, c in flatcat_views(f.node):
                 res.inst({'function': f.fq, 'view': src(v)[:70]}, (f.fq, src(v)[:40]))
